@@ -528,6 +528,23 @@ def run_eigvec(case):
     return out
 
 
+def native_checkdiag():
+    """the real check_diagonal on matrices with exactly-zero and with tiny non-zero off-diagonal entries"""
+    import torch
+    mf = M()
+    for dt in (torch.float32, torch.float64):
+        for off in (1e-9, 1e-12, 1e-30):
+            A = torch.eye(3, dtype=dt) * 2.0
+            A[0, 2] = off
+            A[2, 0] = off
+            if mf.check_diagonal(A):
+                return f"check_diagonal reports a matrix with off-diagonal entries {off} ({dt}) as diagonal"
+            B = torch.diag(torch.tensor([1e-20, 3.0, 0.0], dtype=dt))
+            if not mf.check_diagonal(B):
+                return f"check_diagonal reports an exactly diagonal matrix ({dt}) as not diagonal"
+    return None
+
+
 def run_checkdiag(case):
     mf = M()
     func = "check_diagonal"
@@ -552,7 +569,7 @@ def run_checkdiag(case):
                 lo = uf("any_nonzero", ARR, z3.BoolSort())(uf("tril_-1", ARR, ARR)(A.v))
                 rv = r.t if isinstance(r, SymBool) else z3.BoolVal(bool(r))
                 out.append(prove(f"{func}/diagonal-iff-both-strict-triangles-are-zero{tag}", func, p.cond(), z3.And(z3.BoolVal(two_d), square, rv == z3.And(z3.Not(up), z3.Not(lo))),
-                                 case=case, text="True iff the strictly upper and strictly lower triangles contain no non-zero entry"))
+                                 case=case, replay=dict(kind="checkdiag"), text="True iff the strictly upper and strictly lower triangles contain no non-zero entry (EXACT test: a tiny off-diagonal entry is not diagonal)"))
             else:
                 out.append(result(f"{func}/supported{tag}", func, "unknown", text=str(p.value), case=case))
     return out
@@ -794,6 +811,9 @@ def run_higher_loop(case):
                         return None
                     if not broke and sp.test(env):
                         return None
+                    # the ACTUAL residual of the X held at loop exit (same uninterpreted matmul / matrix_power / norm symbols the code uses),
+                    # computed by the harness: the guard clause is about this quantity, not about whatever number the code returns
+                    env["__residual__"] = ft.linalg.vector_norm(env["A_ridge"] @ ft.linalg.matrix_power(env["X"], env["p"]) - env["identity"], ft.inf)
                     try:
                         return env, sp.post(env, broke=broke)
                     except ArithmeticError as e:
@@ -816,9 +836,10 @@ def run_higher_loop(case):
                 itt = iters.t if isinstance(iters, SymInt) else z3.IntVal(iters)
                 nanX = uf("any_nan_float32", ARR, z3.BoolSort())(X.v)
                 infX = uf("any_inf_float32", ARR, z3.BoolSort())(X.v)
-                goal = z3.And(z3.Not(true_err.at(0) > as_real(1e-1).t), z3.Not(nanX), z3.Not(infX), itt >= 1, itt <= cap, Mm.at(IDX) == env["M"].at(IDX))
+                actual = env["__residual__"].at(0)
+                goal = z3.And(z3.Not(actual > as_real(1e-1).t), true_err.at(0) == actual, z3.Not(nanX), z3.Not(infX), itt >= 1, itt <= cap, Mm.at(IDX) == env["M"].at(IDX))
                 out.append(prove(f"{func}/loop/exit:normal-return=>residual-within-guard-and-finite{tag}", func, hyp, goal, model_vars=mvs, case=case, replay=dict(kind="higher"),
-                                 text="from ANY loop-exit state a returned result has |A X^p - I| <= 0.1 and no NaN/Inf (else ArithmeticError), for every iteration budget"))
+                                 text="from ANY loop-exit state a returned result has ACTUAL residual |A_ridge X^p - I|_inf <= 0.1 (the residual of the X held at loop exit, computed by the harness), reports exactly that residual, and has no NaN/Inf (else ArithmeticError), for every iteration budget"))
                 errM = resid(Mm)
                 if broke:
                     g2 = z3.BoolVal(flag == mf.NewtonConvergenceFlag.EARLY_STOP)
